@@ -26,11 +26,13 @@ CB_KINDS = ["cba", "cbs", "cbk", "cbp", "cbo", "cbw"]   # async def / def / keyw
 
 
 class BlockError(Exception):
-    pass
+    def __bool__(self):      # an exception is one whatever its truth value
+        return False
 
 
 class NewError(Exception):
-    pass
+    def __bool__(self):      # an exception is one whatever its truth value
+        return False
 
 
 class EnterError(Exception):
@@ -103,6 +105,14 @@ class World:
 
             async def __aexit__(self, et, ev, tb):
                 return w.core(e, beh, ev)
+
+            # ... which also has the synchronous protocol, as a stub that tells people to use `async with`
+            # (`async with` never looks at it, so neither may the stack)
+            def __enter__(self):
+                raise TypeError("use 'async with'")
+
+            def __exit__(self, et, ev, tb):
+                return False
 
         class CM:
             def __enter__(self):
@@ -488,9 +498,9 @@ def _replay_path(args):
                     res2 = run(tstd.aclose(), w2.acct)
             else:
                 ev = w.block
-                res = run(tgt.__aexit__(type(ev) if ev else None, ev, None), w.acct)
+                res = run(tgt.__aexit__(type(ev) if ev is not None else None, ev, None), w.acct)
                 ev2 = w2.block
-                res2 = run(tstd.__aexit__(type(ev2) if ev2 else None, ev2, None), w2.acct)
+                res2 = run(tstd.__aexit__(type(ev2) if ev2 is not None else None, ev2, None), w2.acct)
             # the nested with-statement twin over the entries the model says are owned
             wn = World(salt)
             wn.block = BlockError() if x else None
